@@ -52,9 +52,29 @@ def r_sin(x):
     return SReal(s)
 
 
+def _nonneg_by_form(t):
+    """sum of squares / non-negative numerals: non-negative for syntactic reasons (no solver query needed)"""
+    if z3.is_rational_value(t) or z3.is_int_value(t):
+        return t.numerator_as_long() >= 0 if z3.is_rational_value(t) else t.as_long() >= 0
+    if z3.is_add(t):
+        return all(_nonneg_by_form(c) for c in t.children())
+    if z3.is_mul(t):
+        ch = t.children()
+        if len(ch) == 2 and z3.eq(ch[0], ch[1]):
+            return True
+        return all(_nonneg_by_form(c) for c in ch) if all(z3.is_rational_value(c) or (z3.is_mul(c)) for c in ch) else False
+    if z3.is_app_of(t, z3.Z3_OP_POWER):
+        e = t.arg(1)
+        return (z3.is_int_value(e) or z3.is_rational_value(e)) and str(e) in ("2", "2.0", "4")
+    return False
+
+
 def r_sqrt(x, require=True):
     t = rterm(x)
     s = SQRT(t)
+    if require and _nonneg_by_form(t):
+        require = False
+        _ex().assume(t >= 0)  # a sum of squares
     if require:
         _ex().require("sqrt-argument-nonnegative", t >= 0, kind="call-pre")
     _ex().assume(z3.Implies(t >= 0, z3.And(s >= 0, s * s == t)))
